@@ -491,12 +491,16 @@ fn build_kind(node: &Node, env: &Env) -> BoxView<'static> {
                     visible: visible.get(),
                 },
             };
-            ScrollBar::new(
-                axis.get(),
-                Face::new(Some(idcol(id)), Some(idcol(id)), FaceAttrs::EMPTY),
-                position,
-            )
-            .boxed()
+            let face = Face::new(Some(idcol(id)), Some(idcol(id)), FaceAttrs::EMPTY);
+            if id % 2 == 1 {
+                // the lazily evaluated flavour of the same view
+                {
+                    let (offset, visible) = (position.offset, position.visible);
+                    surf_n_term::view::ScrollBarFn::new(axis.get(), face, move || ScrollBarPosition { offset, visible }).boxed()
+                }
+            } else {
+                ScrollBar::new(axis.get(), face, position).boxed()
+            }
         }
         Kind::Nothing => None::<BoxView<'static>>.boxed(),
         Kind::Unit => ().boxed(),
